@@ -173,7 +173,7 @@ def classify (arg : CStr) : OptKind :=
 def handleOption (K : Consts) (o : Opts) (arg : CStr) (arg2 : Option CStr) : Step :=
   match classify arg with
   | .c => .ok { o with compress := true } 1 []
-  | .d => .ok { o with dbgXml := true } 1 []
+  | .d => .ok { o with dbgXml := true, dbgAll := false } 1 []    -- SetOutputDebugFiles(true, false): also undoes an earlier -D
   | .D => .ok { o with dbgXml := true, dbgAll := true } 1 []
   | .e =>
     match arg2 with
